@@ -6,6 +6,7 @@ import (
 	"html"
 	"strconv"
 	"strings"
+	"sync"
 	"unicode/utf8"
 
 	tplhtml "code.gopub.tech/tpl/html"
@@ -212,6 +213,39 @@ func propC14(c *ctx) error {
 						res.disagree(J{"src": lit}, J{"r": out.R, "v": out.V}, m, "eval of a literal with escape sequences")
 					}
 				}
+			}
+		}
+	}
+	// literals evaluated from several goroutines at once (every goroutine its own literals, in all three styles): each
+	// evaluation yields exactly its own string — nothing about decoding a literal may be shared between evaluations
+	{
+		const G, N = 8, 1500
+		var wg sync.WaitGroup
+		bad := make([]string, G)
+		for g := 0; g < G; g++ {
+			wg.Add(1)
+			go func(g int) {
+				defer wg.Done()
+				for k := 0; k < N && bad[g] == ""; k++ {
+					str := fmt.Sprintf("g%d-%d-%s", g, k, strings.Repeat(string(rune('a'+g)), 1+k%40)) + []string{"", "'", "\"", "\\", "é\n"}[k%5]
+					lit := []string{encodeQ(str, '\''), encodeQ(str, '"')}[k%2]
+					if k%7 == 0 && !strings.ContainsAny(str, "`\r") {
+						lit = "`" + str + "`"
+					}
+					out := implEval(lit, []any{map[string]any{}}, nil)
+					if want := "string:" + hexOf(str); out.R != "ok" || out.V != want {
+						bad[g] = fmt.Sprintf("goroutine %d evaluation %d of %s: %s:%s %s", g, k, lit, out.R, out.V, trunc(out.Err, 80))
+					}
+				}
+			}(g)
+		}
+		wg.Wait()
+		res.S3Checked += G * N
+		res.count("concurrent_literal_evaluations")
+		for _, b := range bad {
+			if b != "" {
+				res.violate(J{"goroutines": G, "evaluations_each": N}, "every literal evaluates to its own string", b, "literals evaluated concurrently do not evaluate to exactly the strings they denote")
+				break
 			}
 		}
 	}
